@@ -624,33 +624,34 @@ def run(ctx, load):
         check_remove_one(P, E, ctx, T, f)
     check_replace(P, E, ctx)
     ctx.floor('C05.drop-pairing', 10)
-    check_clear(P, E, ctx, 'Array', 'Array_Clear', 'data')
-    check_clear(P, E, ctx, 'Array', 'Array_Del', 'data', sets_count=False)
-    check_clear(P, E, ctx, 'Table', 'Table_Clear', 'data')
-    check_clear(P, E, ctx, 'Table', 'Table_Del', 'data', sets_count=False)
-    check_clear(P, E, ctx, 'List', 'List_Clear')
-    check_clear(P, E, ctx, 'Tree', 'Tree_Clear_Entry', sets_count=False, recursive=True)
-    ctx.floor('C05.full-teardown', 6)
-    # destructors of List and Tree delegate to the clear routine; Tree_Clear resets count and root
-    for T, d, c in (('List', 'List_Del', 'List_Clear'), ('Tree', 'Tree_Del', 'Tree_Clear')):
-        fn = P.fn(P.slot(T, 'New', 'destruct'))
-        g = P.cfg(fn)
-        cs = [n for (n, c2) in g.nodes_calling(c)]
-        ctx.check(len(cs) == 1 and g.must_pass(g.exit, [cs[0]['id']]), 'C05.full-teardown', fn['name'] + ':delegates', site(fn),
-                  'the destructor runs the clear routine on every path')
-    fn = P.fn('Tree_Clear')
-    g = P.cfg(fn)
-    N = util.Norm(P, fn)
-    cs = [(n, c) for (n, c) in g.nodes_calling('Tree_Clear_Entry')]
-    ok = len(cs) == 1 and N.canon(cs[0][1][2][1]) == ('arrow', ('param', 0), 'root')
-    st = {}
-    for n in g.live():
-        if n['expr'] is not None:
-            for ev in util.expr_events(n['expr'], n):
-                if ev['t'] == 'write':
-                    st[ir.fmt(N.canon(ev['lhs']))] = ev['rhs']
-    ok = ok and util.const_int(st.get('arg0->nitems')) == 0 and 'arg0->root' in st and ir.is_null(st['arg0->root'])
-    ctx.check(ok, 'C05.full-teardown', 'Tree_Clear', site(fn), 'clears from the root, then resets count and root')
+    # teardown, evaluated on small instances (absmodel): every element destructed exactly once, before its storage is released, the
+    # storage released exactly once, the counts reset
+    from . import absmodel
+    for T, fname, key, args, reset, what in (
+            ('Array', 'Array_Clear', 'Array_Clear', None, ('nitems',), 'every element is destructed once, then the store is freed and the count reset'),
+            ('Array', P.slot('Array', 'New', 'destruct'), 'Array_Del', None, (), 'every element is destructed once, then the store is freed'),
+            ('Table', 'Table_Clear', 'Table_Clear', None, ('nitems', 'nslots'), 'every key and value is destructed once, then the store is freed and the counts reset'),
+            ('Table', P.slot('Table', 'New', 'destruct'), 'Table_Del', None, (), 'every key and value is destructed once, then the store is freed'),
+            ('List', 'List_Clear', 'List_Clear', None, ('nitems', 'head', 'tail'), 'every element is destructed once before its block is freed; count and ends reset'),
+            ('Tree', 'Tree_Clear_Entry', 'Tree_Clear_Entry', lambda M: [absmodel.SELF, M.atoms[('elem', 'self', 0, 'root')]], (), 'every key and value is destructed once before its node is freed'),
+            ('List', P.slot('List', 'New', 'destruct'), 'List_Del:delegates', None, (), 'the destructor destructs every element once and frees every block'),
+            ('Tree', P.slot('Tree', 'New', 'destruct'), 'Tree_Del:delegates', None, (), 'the destructor destructs every key and value once and frees every node'),
+            ('Tree', 'Tree_Clear', 'Tree_Clear', None, ('nitems', 'root'), 'clears from the root, then resets count and root')):
+        fn = P.fn(fname, required=False)
+        if fn is None:
+            ctx.proved('C05.full-teardown', key, site(P.fn(P.slot(T, 'New', 'destruct'))), 'no separate routine: evaluated as part of the destructor')
+            continue
+        ctx.fn(fn)
+        try:
+            bad, unsup, ncase = absmodel.eval_teardown(P, T, fname, args, reset)
+        except absmodel.Unsupported as x:
+            bad, unsup, ncase = None, str(x), 0
+        ctx.stats['paths'] += ncase
+        if unsup and not bad:
+            ctx.undecided('C05.full-teardown', key, site(fn), 'leaves the evaluated fragment: ' + unsup)
+        else:
+            ctx.check(bad is None, 'C05.full-teardown', key, site(fn), what + ' (%d instances evaluated)' % ncase, [bad] if bad else None)
+    ctx.floor('C05.full-teardown', 9)
     check_move_not_copy(P, E, ctx)
     check_clear_before_assign(P, E, ctx)
     check_fresh_slot(P, E, ctx)
